@@ -84,9 +84,11 @@ def strategy(draw):
     maxima = sorted({q for c in curves for (_, _, q) in oracle.local_max_runs(expand_curve(c, n))})
 
     def bound():
-        kind = draw(st.sampled_from(["none", "grid", "off", "near-peak", "near-peak", "below", "above", "end"]))
+        kind = draw(st.sampled_from(["none", "grid", "off", "near-peak", "near-peak", "below", "above", "end", "far"]))
         if kind == "none":
             return None
+        if kind == "far":       # "no limit" written as a number
+            return draw(st.sampled_from([float("inf"), 1e20, 1e300, -float("inf"), -1e20, 0.0, 1e-300]))
         if kind == "grid":
             return f[draw(st.integers(0, n - 1))]
         if kind == "near-peak" and maxima:
@@ -112,6 +114,16 @@ def strategy(draw):
         lo, hi = bound(), bound()
         if lo is not None and hi is not None and lo > hi and draw(st.booleans()):
             lo, hi = hi, lo
+        if steps and draw(gen.chance(4)):
+            # the previous range with one limit replaced by a value a lossy cache key would confuse with it
+            lo, hi = steps[-1]["range"]
+            how = draw(gen.choice(gen.COLLIDERS))
+            which = draw(st.sampled_from([0, 1]))
+            if [lo, hi][which] is None:
+                which = 1 - which
+            if [lo, hi][which] is not None:
+                v = gen.collide([lo, hi][which], how)
+                lo, hi = (v, hi) if which == 0 else (lo, v)
         steps.append(dict(range=[lo, hi], how=draw(st.sampled_from(["tuple", "tuple", "list", "same-list", "same-list"])),
                           kw=draw(st.sampled_from(["none", "empty", "empty"]))))
     return dict(f=f, curves=curves, steps=steps)
